@@ -269,7 +269,7 @@ func runC04(w *World, r *Report) {
 		n := fi.Pkg.Types.Name()
 		return n == "openflow13" || n == "protocol" || n == "common"
 	})
-	r.Rule("extent", "the size a decoded element reports — by which every list decoder steps to the next element — equals the bytes the element occupies (the C05 rule): a size that is off shifts everything decoded after it", 100)
+	r.Rule("extent", "the size a decoded element reports — by which every list decoder steps to the next element — equals the bytes the element occupies (the C05 rule): a size that is off shifts everything decoded after it", 60)
 	extentRule(w, r, "extent")
 	r.Rule("liststep", "the advance over a list element is computed from that element, not from a value remembered from an earlier iteration", 6)
 	r.Rule("oxm-varlen", "variable-length OXM payloads are decoded with oxm_length (no mask) or half of it (mask)", 2)
